@@ -94,6 +94,7 @@ def expval_case(ctx, **p):
     psi = sm.psi
     L = sm.L
     names = [nm for nm in NAMED_1SITE[sm.kind] if not sm.sites[0].op_needs_JW(nm)]
+    names = names if len(names) > 1 else names * 2
     mode = p['mode']
     if mode == 'named':
         nm = names[ctx.choice('op', len(names))]
@@ -755,13 +756,14 @@ def CASES(tier, seed):
         if bc != 'infinite':
             add(f'env.overlap[{gn}]', 'env_case', g, mode='overlap')
             add(f'env.LPRP[{gn}]', 'env_case', g, mode='LPRP')
+            heavy = kind in ('spin', 'ferm', 'shf', 'spin+ferm') and L >= 4  # bra != ket over 4 charge-free sites: > 25 min per case
             add(f'env.expval1[{gn}]', 'env_case', g, mode='expval', n=1)
-            if L >= 2:
+            if L >= 2 and not heavy:
                 add(f'env.expval2[{gn}]', 'env_case', g, mode='expval', n=2)
             if bc == 'finite':
                 add(f'env.overlap_ignore_form[{gn}]', 'env_case', g, mode='overlap_ignore_form', forms_ket='A', forms_bra='B')
                 add(f'env.overlap.forms[{gn}]', 'env_case', g, mode='overlap', forms_ket='A', forms_bra=(['B', 'Th', 'G', 'A'] * 2)[:L])
-                if kind.startswith('spin') and homog and kind != 'spinP':
+                if kind.startswith('spin') and homog and kind != 'spinP' and not heavy:
                     add(f'env.corr[{gn}]', 'env_case', g, mode='corr', ops=['Sp', 'Sm'])
                     add(f'env.term[{gn}]', 'env_case', g, mode='term', terms=[[('Sp', 0), ('Sm', L - 1)], [('Sz', L - 1), ('Sp', 0), ('Sm', 0)]])
         # ---- sums of terms through an MPO
@@ -773,7 +775,7 @@ def CASES(tier, seed):
             else:
                 ts = [[('Nu', 0)], [('Cdu', 0), ('Cu', 1)], [('Cdd', L - 1), ('Cd', 0)]]
             add(f'terms_sum.mps[{gn}]', 'terms_sum_case', g, mode='mps', terms=ts)
-            if kind != 'spin' or thorough:
+            if kind != 'spin' or (thorough and L < 4):
                 add(f'terms_sum.env[{gn}]', 'terms_sum_case', g, mode='env', terms=ts, cplx_strength=True)
         # ---- sampling (cost: pure-Python polynomial arithmetic with sqrt reductions, so the windows are kept short)
         cons = kind in ('spinSz', 'fermN', 'fermP', 'shfNSz', 'spinP')
@@ -782,8 +784,8 @@ def CASES(tier, seed):
             wins += [(L - 1, L)]  # across the unit-cell boundary
         elif L >= 3:
             wins += [(1, 2)]
-        if cons and (bc == 'finite' or thorough):
-            wins += [(0, 2)] if (bc == 'infinite' or L >= 3) else []
+        if cons and (bc == 'finite' or (thorough and bc == 'segment')):
+            wins += [(0, 2)] if L >= 3 else []
         for first, last in sorted(set(wins)):
             if bc != 'infinite' and last > L - 1:
                 continue
